@@ -154,9 +154,11 @@ func VH_C12_Forms() {
 // VH_C12_Nested: macros calling macros, from an included template and from another library.
 func VH_C12_Nested() {
 	v := symStringIn(1, vhValAlphabet)
-	k := symChoice(4)
+	k := symChoice(9)
 	e := New()
 	e.RegisterString("lib", vhC12Lib)
+	e.RegisterString("lib3", "{% macro m(p) %}THEIRS{% endmacro %}")
+	e.RegisterString("lib4", "{% macro m(p, q='D', r) %}[{{ p }}|{{ q }}|{{ r }}]{% endmacro %}{% macro two(a) %}<{{ m(a, 'Q') }}>{% endmacro %}")
 	e.RegisterString("lib2", "{% macro wrap(x) %}{% import 'lib' as l %}({{ l.m(x) }}){% endmacro %}")
 	e.RegisterString("inc", "{% import 'lib' as l %}{{ l.m(v, v) }}")
 	main := []string{
@@ -164,8 +166,17 @@ func VH_C12_Nested() {
 		"{% import 'lib2' as w %}{{ w.wrap(v) }}",
 		"{% include 'inc' %}",
 		"{% from 'lib' import two %}{% for i in [1, 2] %}{{ two(v) }}{% endfor %}",
+		// the calling template has macros of its own with the names the library uses: a macro body
+		// resolves names in the template that defines it, whoever calls it
+		"{% macro m(p) %}MINE{% endmacro %}{% import 'lib' as l %}{{ l.two(v) }}",
+		"{% macro m(p) %}MINE{% endmacro %}{% from 'lib' import two %}{{ two(v) }}",
+		"{% from 'lib3' import m %}{% import 'lib' as l %}{{ l.two(v) }}",
+		"{% macro m(p) %}MINE{% endmacro %}{% macro two(a) %}MINE2{% endmacro %}{% import 'lib4' as l %}{{ l.two(v) }}",
+		"{% macro m(p) %}MINE{% endmacro %}{% import 'lib4' as l %}{{ l.two(v) }}{{ m(v) }}",
 	}[k]
-	want := []string{"<[" + v + "|Q|]>", "([" + v + "|D|])", "[" + v + "|" + v + "|]", "<[" + v + "|Q|]><[" + v + "|Q|]>"}[k]
+	symTag("variant:" + string(rune('0'+k)))
+	q := "<[" + v + "|Q|]>"
+	want := []string{q, "([" + v + "|D|])", "[" + v + "|" + v + "|]", q + q, q, q, q, q, q + "MINE"}[k]
 	if e.RegisterString("main", main) != nil {
 		symAssert(false, "template-parses")
 		return
